@@ -167,6 +167,10 @@ mut("engine: value-returning exit inside the sector while loop", [(SAM, "       
 _ENTRY_OLD = "        sample(\n            &self.table,\n            x_space_point,\n            &self.loop_signature,\n            &edge_data,\n            settings,"
 mut("entry N: inputs through locals and a full reslice", [(LIB, _ENTRY_OLD, "        let point = &x_space_point[..];\n        let table = &self.table;\n        let data = edge_data.as_slice();\n        sample(\n            table,\n            point,\n            &self.loop_signature,\n            data,\n            settings,")], C12=None, C13=None, C14=None, C01=None)
 mut("entry: point re-collected after a map", [(LIB, _ENTRY_OLD, "        let point = x_space_point.iter().map(|x| x.clone() * x.one()).collect_vec();\n        sample(\n            &self.table,\n            &point,\n            &self.loop_signature,\n            &edge_data,\n            settings,")], C12="C12-g", C13="C13-g", C14="C14-k")
+# ---- f64 primitives: equivalent spellings (now restated in eight properties) ----
+mut("C20 N: sqrt by method-call syntax", [(FLO, "        f64::sqrt(*self)", "        (*self).sqrt()")], C20=None, C08=None, C13=None, C15=None)
+mut("C20 N: powf through locals", [(FLO, "        f64::powf(*self, *power)", "        let base = *self;\n        let exponent = *power;\n        base.powf(exponent)")], C20=None, C07=None, C11=None)
+mut("C20 N: inv as recip", [(FLO, "        1.0 / self", "        1.0 / *self")], C20=None, C07=None, C15=None)
 # ---- C15-e series, decided at matrix level ----
 _PUSH_OLD = """            let last_power_of_n = powers_of_n
                 .last()
